@@ -189,3 +189,27 @@ package movegen
 //@ func GenNotNoisy view search
 //@   trusted frame only (proved in the main contract): fills the top frame of the move store
 //@   modifies ms.allocIx, ms.data.*
+//@
+//@ # ---- `picker` views (C16): the generators append to the store and touch nothing else.  Justified
+//@ # ---- mechanically by the scan below (every store in the generators' call tree happens inside
+//@ # ---- move.(*Store).Alloc, which writes data[allocIx] and advances allocIx); the capacity of the
+//@ # ---- store (2048 entries across all frames) is assumed sufficient.
+//@ func GenNoisy view picker
+//@   trusted append-only (scan `writes-only-via` on appendOnly below + Alloc's body); store capacity assumed
+//@   ensures ms.allocIx >= old(ms.allocIx) && ms.allocIx <= len(ms.data)
+//@   ensures implies(0 <= gi && gi < old(ms.allocIx), ms.data[gi] == old(ms.data[gi]))
+//@   modifies ms.allocIx, ms.data.*
+//@
+//@ func GenNotNoisy view picker
+//@   trusted append-only (scan `writes-only-via` on appendOnly below + Alloc's body); store capacity assumed
+//@   ensures ms.allocIx >= old(ms.allocIx) && ms.allocIx <= len(ms.data)
+//@   ensures implies(0 <= gi && gi < old(ms.allocIx), ms.data[gi] == old(ms.data[gi]))
+//@   modifies ms.allocIx, ms.data.*
+//@
+//@ func GenNoisy view appendOnly
+//@   props C16
+//@   writes-only-via (*move.Store).Alloc
+//@
+//@ func GenNotNoisy view appendOnly
+//@   props C16
+//@   writes-only-via (*move.Store).Alloc
